@@ -7,6 +7,7 @@ import AvroModel.Drv.Time
 import AvroModel.Drv.Bank
 import AvroModel.Drv.Conc
 import AvroModel.Drv.SchemaGen
+import AvroModel.Drv.File
 open Avro Avro.Sexp Avro.Drv
 
 def dispatch (prop : String) (op : String) (args : List Sexp) : Verdict :=
@@ -25,6 +26,8 @@ def dispatch (prop : String) (op : String) (args : List Sexp) : Verdict :=
   | "C12" => c12 op args
   | "C15" => c15 op args
   | "C20" => c20 op args
+  | "C07" => c07 op args
+  | "C08" => c08 op args
   | _ => .bad s!"unknown property {prop}"
 
 partial def loop (prop : String) (h : IO.FS.Stream) (out : IO.FS.Stream) : IO Unit := do
